@@ -39,6 +39,11 @@ CHECKS = {
    "Full product of method x scheme x 6 rules x 4 path ids (plain, percent-encoded, encoded slash, UTF-8) x queries x header variants (repeated, lower-case) x cookies x bodies, each sent through the real decision and proxy handler chains and the real Envoy gRPC server; decision, every request-view component echoed by a header finalizer (method, URL parts, captures, headers, cookies, decoded body) and the headers/cookies handed upstream must be pairwise equal.",
    "Envoy's rendering of a request as CheckRequest is an environment model (path=escaped path, query=raw query, lower-cased header map, body in body and raw_body), the one the repository's tests use; client address list is not compared.",
    "DESIGN.md 4 C13"),
+ "C09": ("exploration", "enum",
+   "bounded exhaustive enumeration of trusted_proxies lists x peer addresses x all 2^7 forwarded-header subsets (x spellings x repetition) through the real decision and proxy handler chains; differential oracle for untrusted peers, override table for trusted peers",
+   "For every combination the request is sent with and without the seven forwarded headers through the real middleware chain (trustedproxy first), real request context extraction, real rules keyed on scheme/host/method/path and an echoing finalizer; for an untrusted peer nothing observable may differ and no spoofed value may reach the recording upstream; for a trusted peer each present header must override exactly its component.",
+   "Reference reading of 'listed in trusted_proxies': parsable peer address equal to / contained in a parsable entry; X-Forwarded-Path semantics and the choice among repeated fields are not judged.",
+   "DESIGN.md 4 C09"),
 }
 
 NOT_YET = {
